@@ -341,6 +341,24 @@ fn carry_value(rng: &mut Rng, val: &[u8]) -> (Vec<u8>, &'static str) {
 
 /// Wide rather than deep: n siblings (signers, recipients, keys, extra parameters, critical
 /// labels, counter signatures, supplementary strings, claims).  `full` fills the whole size cap.
+/// Position of the i-th written entry among n distinct labels: ascending, descending, a fixed
+/// pseudo-random permutation, or alternating from both ends - the order in which a sender lists
+/// distinct labels is the sender's choice.
+fn ordered(ord: usize, i: usize, n: usize) -> usize {
+    match ord {
+        0 => i,
+        1 => n - 1 - i,
+        2 => ((i as u64 * 1_000_003u64) % n as u64) as usize,
+        _ => {
+            if i % 2 == 0 {
+                i / 2
+            } else {
+                n - 1 - i / 2
+            }
+        }
+    }
+}
+
 pub fn gen_wide(rng: &mut Rng, cap: usize, full: bool) -> (Vec<u8>, &'static str) {
     let sig0: &[u8] = &[0x83, 0x40, 0xa0, 0x40];
     let rcpt0: &[u8] = &[0x83, 0x40, 0xa0, 0xf6];
@@ -360,8 +378,11 @@ pub fn gen_wide(rng: &mut Rng, cap: usize, full: bool) -> (Vec<u8>, &'static str
             let n = n.min(cap / 5).clamp(1, 100_000);
             let floats_only = rng.bool();
             let mut o = head(5, n as u64);
+            // per-entry draws come from a fork, so that the draws AFTER the loop (the carrier)
+            // do not depend on n: the scaling probe generates the same shape at two sizes
+            let mut er = Rng::from_u64(rng.next_u64());
             for i in 0..n {
-                match if floats_only { 0 } else { rng.below(5) } {
+                match if floats_only { 0 } else { er.below(5) } {
                     0 => {
                         let bits: u16 = match i % 11 {
                             3 => 0x7e00,
@@ -396,9 +417,11 @@ pub fn gen_wide(rng: &mut Rng, cap: usize, full: bool) -> (Vec<u8>, &'static str
             } else {
                 o.extend(head(5, n as u64));
             }
-            for i in 0..n {
+            let ord = rng.below(4);
+            for j in 0..n {
+                let i = ordered(ord, j, n);
                 let c = |k: usize| b'a' + ((i / 26usize.pow(k as u32)) % 26) as u8;
-                o.extend([0x64, c(0), c(1), c(2), c(3), 0x00]);
+                o.extend([0x64, c(3), c(2), c(1), c(0), 0x00]);
             }
             match which {
                 0 => carry_header(rng, &o),
@@ -438,10 +461,12 @@ pub fn gen_wide(rng: &mut Rng, cap: usize, full: bool) -> (Vec<u8>, &'static str
         }
         7 => {
             // n claims
-            let n = n.min(cap / 8);
+            let n = n.min(cap / 8).max(1);
             let mut o = head(5, n as u64);
-            for i in 0..n {
-                o.extend(head(1, 65536 + i as u64));
+            let ord = rng.below(4);
+            let major = if rng.chance(1, 3) { 0 } else { 1 };
+            for j in 0..n {
+                o.extend(head(major, 65536 + ordered(ord, j, n) as u64));
                 o.push(0x00);
             }
             (o, "ClaimsSet")
@@ -473,13 +498,18 @@ pub fn gen_wide(rng: &mut Rng, cap: usize, full: bool) -> (Vec<u8>, &'static str
             (o, "CoseKeySet")
         }
         _ => {
-            let n = n.min(cap / 6);
+            let n = n.min(cap / 6).max(1);
             let mut o = head(5, n as u64);
-            for i in 0..n {
-                o.extend(head(0, 1000 + i as u64));
+            let ord = rng.below(4);
+            let major = if rng.chance(1, 3) { 1 } else { 0 };
+            for j in 0..n {
+                o.extend(head(major, 1000 + ordered(ord, j, n) as u64));
                 o.push(0x00);
             }
-            carry_header(rng, &o)
+            match rng.below(4) {
+                0 => (o, "CoseKey"),
+                _ => carry_header(rng, &o),
+            }
         }
     }
 }
@@ -716,7 +746,12 @@ fn subst_palette(rng: &mut Rng) -> Item {
         18 => Item::int(-1),
         19 => Item::uint(*rng.pick(&[1u64 << 63, (1u64 << 63) - 1, 1 << 32, (1 << 32) - 1])),
         20 => Item::uint(u64::MAX),
-        21 => Item::int(*rng.pick(&[-(1i128 << 63) - 1, -(1i128 << 63), -(1i128 << 63) + 1, -(1i128 << 32) - 1])),
+        21 => Item::int(*rng.pick(&[
+            -(1i128 << 63) - 1,
+            -(1i128 << 63),
+            -(1i128 << 63) + 1,
+            -(1i128 << 32) - 1,
+        ])),
         22 => Item::int(-(1i128 << 64)),
         23 => Item::tag(2, Item::bytes(&[1, 0, 0, 0, 0, 0, 0, 0, 0])),
         24 => Item::tag(3, Item::bytes(&[0xff; 9])),
